@@ -62,6 +62,14 @@ def render_line(l):
         return "%sreturn %s" % (ind, u), None, i + 7
     if k == "pass":
         return "%spass" % ind, None, None
+    if k == "imp":
+        return "%sfrom h import %s" % (ind, n), i + 14, None
+    if k == "kw":
+        return "%s%s(%s=1)" % (ind, n, u), i, i + len(n) + 1
+    if k == "try":
+        return "%stry:" % ind, None, None
+    if k == "fin":
+        return "%sfinally: pass" % ind, None, None
     raise ValueError(k)
 
 
@@ -75,6 +83,18 @@ def render(lines):
         cols.append({"n": cn, "u": cu})
         off += len(t) + 1
     return "\n".join(texts) + "\n", starts, cols
+
+
+def helper_source(beh):
+    """h.py: hoff filler lines, then one definition per name of horder (the spec's HLine)"""
+    return "_p = 0\n" * beh["hoff"] + "".join("%s = 1\n" % nm for nm in beh["horder"])
+
+
+def fake_helper(beh):
+    import types
+    m = types.ModuleType("h")
+    exec(helper_source(beh), m.__dict__)
+    return m
 
 
 # ------------------------------------------------------------------ spec vs CPython
@@ -155,11 +175,22 @@ def cpython_crosscheck(beh, src):
         if isinstance(node, ast.FunctionDef):
             for a in node.args.args:
                 add(a.arg, node.lineno)
-        for st in node.body:
+
+        def stmts(body):
+            for st in body:
+                if isinstance(st, ast.Try):          # a block, not a scope
+                    yield from stmts(st.body)
+                    yield from stmts(st.finalbody)
+                else:
+                    yield st
+        for st in stmts(node.body):
             if isinstance(st, ast.Assign):
                 for tg in st.targets:
                     if isinstance(tg, ast.Name):
                         add(tg.id, st.lineno)
+            elif isinstance(st, ast.ImportFrom):
+                for al in st.names:
+                    add(al.asname or al.name, st.lineno)
             elif isinstance(st, (ast.FunctionDef, ast.ClassDef)):
                 add(st.name, st.lineno)
                 bindings(st, st.lineno)
@@ -178,6 +209,11 @@ def cpython_crosscheck(beh, src):
     for idn in beh["idents"]:
         if not idn["det"]:
             continue
+        if idn["imported"]:
+            hl = helper_source(beh).split("\n")
+            if [hl[b - 1] for b in idn["deflines"]] != ["%s = 1" % idn["name"]]:
+                return "HLine of %s: spec %s, h.py %r" % (idn["name"], idn["deflines"], hl)
+            continue
         for b in idn["deflines"]:
             lb = lines[b - 1]
             ok = (lb["k"] in ("bind", "bindu", "def", "class") and lb["n"] == idn["name"]) or \
@@ -190,11 +226,14 @@ def cpython_crosscheck(beh, src):
         if lines[i - 1]["d"] != 0:
             continue
         g = {}
+        sys.modules["h"] = fake_helper(beh)
         try:
             with contextlib.redirect_stdout(io.StringIO()):
                 exec(compile("\n".join(text_lines[:i - 1]) + "\n", "<c20x>", "exec"), g)
-        except Exception:
+        except BaseException:
             break          # a later prefix contains this one
+        finally:
+            sys.modules.pop("h", None)
         dyn = {nm for nm in NAMES if nm in g}
         if dyn != set(info[i - 1]["visF"]) or dyn != set(info[i - 1]["mustF"]):
             return "module line %d: really bound %s, spec visF %s mustF %s" % (
@@ -202,12 +241,15 @@ def cpython_crosscheck(beh, src):
     else:
         # the whole module ran: class attribute sets of module-level classes
         g = {}
+        sys.modules["h"] = fake_helper(beh)
         try:
             with contextlib.redirect_stdout(io.StringIO()):
                 exec(compile(src, "<c20x>", "exec"), g)
             ran = True
-        except Exception:
+        except BaseException:
             ran = False
+        finally:
+            sys.modules.pop("h", None)
         if ran:
             for i in range(1, n + 1):
                 inf = info[i - 1]
@@ -225,7 +267,7 @@ def check_program(item):
     beh, seed = item
     common.use_repo()
     from rope.base import project as project_mod, exceptions
-    from rope.contrib import codeassist, findit
+    from rope.contrib import codeassist, findit, fixsyntax
 
     lines, info = beh["lines"], beh["info"]
     src, starts, cols = render(lines)
@@ -240,7 +282,7 @@ def check_program(item):
     fails = []          # (key dict, detail)
     stats = {"calls": 0, "offsets": len(src) + 1, "trunc_invalid": 0, "trunc_unrepaired_header": 0,
              "sound_checks": 0, "complete_checks": 0, "complete_names": 0, "def_checks": 0,
-             "def_not_first": 0, "dotted_checks": 0}
+             "def_not_first": 0, "dotted_checks": 0, "trytail_def_checks": 0}
 
     bound_of = {sc["s"]: set(sc["bound"]) for sc in beh["scopes"]}
     bindlines = {(sc["s"], b["n"]): sorted(b["at"]) for sc in beh["scopes"] for b in sc["binds"]}
@@ -262,23 +304,78 @@ def check_program(item):
             return "header"
         return "stmt" if nx["d"] >= lines[li]["d"] else "dedent"
 
+    def imported_later(li, names):
+        """every one of names is bound in the line's own scope only on or after line li+1, and (also) by a
+        from h import  line (rope never treats an imported name as defined after the cursor)"""
+        s = info[li]["scope"]
+        return bool(names) and all(
+            bindlines.get((s, nm)) and all(b >= li + 1 for b in bindlines[(s, nm)])
+            and any(b > 0 and lines[b - 1]["k"] == "imp" for b in bindlines[(s, nm)]) for nm in names)
+
+    def param_scope_line(k, name):
+        """line k (0-based) lies inside a def whose parameter is name"""
+        sc = info[k]["scope"]
+        while sc:
+            if lines[sc - 1]["k"] == "def" and lines[sc - 1]["u"] == name:
+                return True
+            sc = info[sc - 1]["scope"]
+        return False
+
     def fail(clause, mode, later, mf, off, li, detail):
         l = lines[li] if li is not None and li < n else None
         key = {"clause": clause, "mode": mode, "linekind": l["k"] if l else "eof",
                "scopekind": beh_scope_kind(beh, info[li]["scope"]) if l else "module"}
-        if mode == "trunc" and l:
+        if mode in ("trunc", "trytail") and l:
             # shape of the truncated line: nothing but indentation left, or part of the statement
             key["cut"] = "blank" if src[starts[li]:off].strip() == "" else "partial"
             key["next"] = next_kind(li)
+            key["nextline"] = lines[li + 1]["k"] if li + 1 < n else "eof"
             if key["cut"] == "blank":
                 key["shape"] = ("blank-line-before-header" if key["next"] == "header" else
                                 "blank-last-line-of-block" if key["next"] in ("eof", "dedent") and l["d"] > 0 else
                                 "blank-line")
-        key.update({k: v for k, v in detail.items() if k in ("exc", "what", "selfshadow")})
+        key.update({k: v for k, v in detail.items() if k in ("exc", "what", "selfshadow", "adjacent")})
         fails.append({"key": key, "off": off, "later": later, "maxfixes": mf, "line": (li + 1) if l else None,
                       "detail": detail})
 
+    hsrc = helper_source(beh)
+
+    def check_definition(code, off, idn, want, want_first, mode, li, name_text_of):
+        """get_definition_location / find_definition at offset off of code against the lines `want`
+        (in h.py when the binding is an import)"""
+        stats["calls"] += 2
+        try:
+            res, lineno = codeassist.get_definition_location(project, code, off)
+            loc = findit.find_definition(project, code, off)
+        except Exception as e:  # noqa
+            fail("NoInternalError", mode, None, 1, off, li, {"exc": type(e).__name__, "msg": str(e)[:160], "code": code})
+            return
+        if not idn["det"]:
+            return
+        stats["def_checks"] += 1
+        shadow = any(lines[b - 1]["k"] == "class" and lines[b - 1]["n"] == idn["name"]
+                     and idn["name"] in bound_of.get(b, ()) for b in idn["deflines"]) if not idn["imported"] else False
+        where = "h.py" if idn["imported"] else None
+        got_where = res.path if res is not None else None
+        if lineno not in want or got_where != where:
+            fail("DefLine", mode, None, 1, off, li,
+                 {"what": "get_definition_location", "selfshadow": shadow, "got": [got_where, lineno],
+                  "want": [where, sorted(want)], "ident": idn, "code": code})
+        elif lineno != want_first:
+            stats["def_not_first"] += 1
+        text = hsrc if idn["imported"] else code
+        loc_where = (loc.resource.path if loc is not None and loc.resource is not None else None)
+        if loc is None or loc.lineno not in want or loc_where != where or \
+                text[loc.region[0]:loc.region[1]] != idn["name"] or \
+                text.count("\n", 0, loc.offset) + 1 != loc.lineno:
+            fail("DefLine", mode, None, 1, off, li,
+                 {"what": "find_definition", "selfshadow": shadow,
+                  "got": None if loc is None else [loc_where, loc.lineno, list(loc.region)],
+                  "want": [where, sorted(want)], "ident": idn, "code": code})
+
     try:
+        with open(os.path.join(root, "h.py"), "w") as f:
+            f.write(hsrc)
         project = project_mod.Project(root, ropefolder=None)
         try:
             for off in range(len(src) + 1):
@@ -302,8 +399,20 @@ def check_program(item):
                     text = src[line_start:line_end]
                     strong = col <= 4 * l["d"] or any(m.start() <= col <= m.end()
                                                       for m in re.finditer(r"[A-Za-z_]\w*", text))
-                for mode in ("full", "trunc"):
-                    if mode == "trunc":
+                for mode in ("full", "trunc", "trytail"):
+                    if mode == "trytail":
+                        # the last line of a try: body, incomplete, and no handler written yet
+                        if at_eof or not inf["tryTail"] or col < 4 * l["d"]:
+                            continue
+                        fin_end = src.find("\n", line_end + 1)
+                        code = src[:off] + src[fin_end:]
+                        try:
+                            compile(code, "<t>", "exec")
+                            invalid = False
+                        except SyntaxError:
+                            invalid = True
+                        settings = [(True, 1), (False, 1)]
+                    elif mode == "trunc":
                         if at_eof or col < 4 * l["d"]:
                             continue
                         code = src[:off] + src[line_end:]
@@ -326,6 +435,9 @@ def check_program(item):
                         except exceptions.ModuleSyntaxError as e:
                             if mode == "trunc" and invalid and header:
                                 stats["trunc_unrepaired_header"] += 1
+                            elif mode == "trytail" and invalid:
+                                # two things are missing (rest of the line, the handler): may need more fixes
+                                stats["trytail_unrepaired"] = stats.get("trytail_unrepaired", 0) + 1
                             elif mode == "trunc" and invalid:
                                 fail("RepairPossible", mode, later, mf, off, li, {"msg": str(e)[:160], "code": code})
                             else:
@@ -339,7 +451,7 @@ def check_program(item):
                                   "trace": traceback.format_exc()[-900:]})
                             continue
                         names = [p.name for p in props]
-                        if not strong:
+                        if not strong or mode == "trytail":     # trytail: completion semantics are covered by trunc
                             continue
                         if so != pstart:
                             fail("StartingOffset", mode, later, mf, off, li, {"got": so, "want": pstart, "code": code})
@@ -365,8 +477,9 @@ def check_program(item):
                         stats["sound_checks"] += 1
                         extra = sorted(x for x in got - vis - BUILTINS - KEYWORDS if not x.endswith("="))
                         if extra:
+                            what = "name-imported-later" if (not later and imported_later(li, extra)) else "name"
                             fail("Soundness", mode, later, mf, off, li,
-                                 {"what": "name", "prefix": prefix, "extra": extra[:6], "visible": sorted(vis), "code": code})
+                                 {"what": what, "prefix": prefix, "extra": extra[:6], "visible": sorted(vis), "code": code})
                         must = set(inf[("mustT" if later else "mustF") if mode == "full" else ("cutT" if later else "cutF")])
                         must &= pfx.get(prefix, set())
                         stats["complete_checks"] += 1
@@ -384,32 +497,67 @@ def check_program(item):
                 start = starts[li] + c
                 assert src[start:start + len(idn["name"])] == idn["name"], (src, idn)
                 for off in range(start, start + len(idn["name"])):
-                    stats["calls"] += 2
-                    try:
-                        res, lineno = codeassist.get_definition_location(project, src, off)
-                        loc = findit.find_definition(project, src, off)
-                    except Exception as e:  # noqa
-                        fail("NoInternalError", "definition", None, 1, off, li, {"exc": type(e).__name__, "msg": str(e)[:160]})
-                        continue
-                    if not idn["det"]:
-                        continue
-                    stats["def_checks"] += 1
-                    # the binding is a class whose own body binds the same name again
-                    shadow = any(lines[b - 1]["k"] == "class" and lines[b - 1]["n"] == idn["name"]
-                                 and idn["name"] in bound_of.get(b, ()) for b in idn["deflines"])
-                    if lineno not in idn["deflines"]:
-                        fail("DefLine", "definition", None, 1, off, li,
-                             {"what": "get_definition_location", "selfshadow": shadow, "got": lineno,
-                              "want": idn["deflines"], "ident": idn})
-                    elif lineno != idn["defline"]:
-                        stats["def_not_first"] += 1
-                    if loc is None or loc.lineno not in idn["deflines"] or \
-                            src[loc.region[0]:loc.region[1]] != idn["name"] or \
-                            src.count("\n", 0, loc.offset) + 1 != loc.lineno:
-                        fail("DefLine", "definition", None, 1, off, li,
-                             {"what": "find_definition", "selfshadow": shadow,
-                              "got": None if loc is None else [loc.lineno, list(loc.region)],
-                              "want": idn["deflines"], "ident": idn})
+                    check_definition(src, off, idn, set(idn["deflines"]), idn["defline"], "definition", li, None)
+            # ---- the same below an unfinished try: block (last body line incomplete, no handler yet):
+            # the repaired text has lines inserted above the identifier
+            for ti in range(n):
+                if not info[ti]["tryTail"]:
+                    continue
+                t_start, t_end = starts[ti], starts[ti] + len(src[starts[ti]:].split("\n", 1)[0])
+                fin_end = src.find("\n", t_end + 1)
+                body_col = 4 * lines[ti]["d"]
+                for cut in sorted({t_end, t_start + body_col + max(1, (t_end - t_start - body_col) // 2)}):
+                    code = src[:cut] + src[fin_end:]
+                    removed = fin_end - cut
+                    for idn in sorted(info[ti]["below"], key=lambda d: (d["line"], d["role"])):
+                        li = idn["line"] - 1
+                        nm = idn["name"]
+                        # only keyword arguments whose name means nothing as an expression anywhere outside
+                        # the functions that have it as parameter: rope must map the offset into the
+                        # repaired text (FixSyntax.pyname_at -> transferred_offset)
+                        if not idn["det"] or param_scope_line(li, nm) or any(
+                                nm in info[k]["visT"] and not param_scope_line(k, nm) for k in range(n)):
+                            continue
+                        start = starts[li] + cols[li][idn["role"]] - removed
+                        assert code[start:start + len(nm)] == nm, (code, idn)
+                        want = {b if b <= ti + 1 else b - 1 for b in idn["deflines"]}
+                        for off in range(start, start + len(nm)):
+                            stats["calls"] += 1
+                            stats["trytail_def_checks"] += 1
+                            try:
+                                res, lineno = codeassist.get_definition_location(project, code, off)
+                            except exceptions.ModuleSyntaxError:
+                                stats["trytail_unrepaired"] = stats.get("trytail_unrepaired", 0) + 1
+                                continue
+                            except Exception as e:  # noqa
+                                fail("NoInternalError", "trytail-definition", None, 1, off, ti,
+                                     {"exc": type(e).__name__, "msg": str(e)[:160], "code": code,
+                                      "adjacent": li == ti + 2})     # the identifier's line directly follows the block
+                                continue
+                            # which binding was found: the word findit.find_definition points at, read in
+                            # the text rope repaired (its offsets refer to that text)
+                            try:
+                                loc = findit.find_definition(project, code, off)
+                                fixed = fixsyntax.FixSyntax(project, code, None, 1).get_pymodule().source_code
+                                word = None if loc is None else fixed[loc.region[0]:loc.region[1]]
+                            except exceptions.ModuleSyntaxError:
+                                word = nm
+                            except Exception as e:  # noqa
+                                word = "raised " + type(e).__name__
+                            if word != nm:
+                                fail("DefLine", "trytail-definition", None, 1, off, ti,
+                                     {"adjacent": li == ti + 2, "what": "find_definition-word", "got": word,
+                                      "want": nm, "ident": idn, "code": code})
+                            if res is None and lineno in want:
+                                continue
+                            # rope answers with the line number of the REPAIRED text: two lines (finally: / pass)
+                            # were inserted above every line below the try block
+                            shifted = res is None and lineno is not None and (lineno - 2) in want and lineno - 2 > ti + 1
+                            fail("DefLine", "trytail-definition", None, 1, off, ti,
+                                 {"adjacent": li == ti + 2,
+                                  "what": "line-of-repaired-text" if shifted else "get_definition_location",
+                                  "got": [res.path if res is not None else None, lineno], "want": sorted(want),
+                                  "ident": idn, "code": code})
         finally:
             project.close()
     finally:
@@ -425,10 +573,13 @@ def beh_scope_kind(beh, s):
 
 
 # ------------------------------------------------------------------ main
-def run_tlc(max_lines, max_depth, simulate=None, export=False, seed=None, depth=None, tag="", max_export=None):
+def run_tlc(max_lines, max_depth, simulate=None, export=False, seed=None, depth=None, tag="", max_export=None,
+            kinds="MCAllKinds", preludes="MCNoPrelude", hoffsets=(1, 4)):
     cfg = os.path.join(common.SCRATCH_BASE, "c20_%d%s.cfg" % (os.getpid(), tag))
     tlc.write_cfg(cfg, constants={"Names": tlc.Sub("MCNames"), "Chars": tlc.Sub("MCChars"),
-                                  "MaxLines": max_lines, "MaxDepth": max_depth},
+                                  "MaxLines": max_lines, "MaxDepth": max_depth,
+                                  "HOrder": tlc.Sub("MCHOrder"), "HOffsets": set(hoffsets), "Kinds": tlc.Sub(kinds),
+                                  "Preludes": tlc.Sub(preludes)},
                   invariants=INVARIANTS + (["Export"] if export else []))
     behs = []
     try:
@@ -457,7 +608,15 @@ def main(tier):
     res2, behs2 = run_tlc(9, 3, simulate={"num": 20 if quick else 80}, depth=10, export=True,
                           seed=common.SEED + 1, tag="s")
     print("TLC PyAssist simulation:", res2.summary())
-    for r in (res1, res2):
+    # focus: imports competing with other bindings (simulated), and - exhaustively - what can follow a
+    # function with a parameter and a try: block that is still open (unfinished try: blocks, keyword calls)
+    res3, behs3 = run_tlc(9, 3, simulate={"num": 8 if quick else 40}, depth=10, export=True,
+                          seed=common.SEED + 2, tag="i", kinds="MCImpKinds")
+    print("TLC PyAssist simulation (imports):", res3.summary())
+    res4, behs4 = run_tlc(7, 2, export=True, tag="t", kinds="MCTryFocusKinds", preludes="MCTryPreludes",
+                          hoffsets=(1,))
+    print("TLC PyAssist exhaustive (open try blocks):", res4.summary())
+    for r in (res1, res2, res3, res4):
         if not r.ok:
             verdict.machinery_failure("TLC: %s %s\n%s" % (r.violated, r.error, (r.trace or r.tail)[-1500:]))
     if verdict.machinery:
@@ -468,24 +627,29 @@ def main(tier):
     def uniq(bs):
         out = []
         for b in bs:
-            k = json.dumps(b["lines"], sort_keys=True)
+            k = json.dumps([b["lines"], b["hoff"]], sort_keys=True)
             if k not in seen:
                 seen.add(k)
                 out.append(b)
         return out
     small = uniq(behs1)
     big = [b for b in uniq(behs2) if len(b["lines"]) >= 4]
-    small.sort(key=lambda b: json.dumps(b["lines"], sort_keys=True))
-    big.sort(key=lambda b: json.dumps(b["lines"], sort_keys=True))
+    imps = [b for b in uniq(behs3) if len(b["lines"]) >= 4 and any(l["k"] == "imp" for l in b["lines"])]
+    tries = [b for b in uniq(behs4) if any(i["below"] for i in b["info"])]
+    for lst in (imps, tries):
+        lst.sort(key=lambda b: json.dumps([b["lines"], b["hoff"]], sort_keys=True))
+        rnd.shuffle(lst)
+    small.sort(key=lambda b: json.dumps([b["lines"], b["hoff"]], sort_keys=True))
+    big.sort(key=lambda b: json.dumps([b["lines"], b["hoff"]], sort_keys=True))
     rnd.shuffle(small)
     rnd.shuffle(big)
     # prefer programs with nesting
     nested = [b for b in small if any(l["d"] > 0 for l in b["lines"])]
     flat = [b for b in small if not any(l["d"] > 0 for l in b["lines"])]
     if quick:
-        chosen = nested[:150] + flat[:30] + big[:220]
+        chosen = nested[:120] + flat[:30] + big[:170] + imps[:60] + tries[:70]
     else:
-        chosen = nested[:1600] + flat[:200] + big[:2000]
+        chosen = nested[:1600] + flat[:200] + big[:2000] + imps[:600] + tries[:800]
     items = [(b, k) for k, b in enumerate(chosen)]
     totals = {}
     replayed = 0
@@ -515,7 +679,8 @@ def main(tier):
         samples.append({"program": render(chosen[0]["lines"])[0]})
     code = verdict.finish()
     common.write_evidence(PROP, tier, "model_checking", {
-        "states": res1.distinct + res2.generated, "transitions": res1.generated + res2.generated,
+        "states": res1.distinct + res2.generated + res3.generated + res4.distinct,
+        "transitions": res1.generated + res2.generated + res3.generated + res4.generated,
         "traces_validated_against_impl": replayed,
         "samples": samples,
         "distinct_nontrivial": nontrivial,
@@ -524,7 +689,9 @@ def main(tier):
                 "completeness required at least one user-defined name at some offset",
         "exhaustive": False,
         "tlc_exhaustive": res1.summary(), "tlc_simulation": res2.summary(),
-        "programs_exported": {"exhaustive": len(behs1), "simulated": len(behs2)},
+        "tlc_simulation_imports": res3.summary(), "tlc_exhaustive_open_try": res4.summary(),
+        "programs_exported": {"exhaustive": len(behs1), "simulated": len(behs2), "simulated_imports": len(behs3),
+                              "open_try": len(behs4)},
         "totals": totals,
         "known_finding_hits": verdict.known_hits,
     }, timer.s(), violations=len(verdict.violations), assumptions=[
